@@ -21,12 +21,12 @@ LEVEL = {
  'C10': ('Lean 4 theorems: comment token = % up to the next end-of-line character; escaped percent is never a comment; a comment is a leaf in every context and closes nothing; search never returns text leaves; and for every well-formed document of the grammar, replacing comment payloads (any payload without end-of-line characters) keeps it well-formed and separated and changes the parse result exactly at those leaves (C10G.comment_payload_does_not_matter, string level).', '0.5, 5 C10'),
  'C11': ('Lean 4 theorems: a verbatim-like environment is read as ONE uninterpreted text up to the first token boundary where \\\\end{name} starts, whatever the body contains, no error possible; user names behave like built-in ones (skip list enters by membership only); without the name in the list the same tokens are read by the ordinary rule; \\\\end{name} of a plain name is exactly five tokens (tokenizer theorem). Known finding F19 (blanks + opener at the start of the body) recorded.', '0.5, 5 C11'),
  'C12': ('Lean 4 theorems: $$ greedy, \\\\$ escaped, asymmetric switches, sizing commands single tokens with a prefix-free table (tokenizer, all inputs); each of the four regions and each named math environment yields one node of its kind whose body is the trees of the enclosed elements; brackets inside are leaves needing no partner; zero-argument operators absorb nothing (grammar completeness).', '0.5, 5 C12'),
- 'C13': ('Lean 4 theorems: char_pos_to_line = (line, column) for every string and offset; every token text is the slice of the source at its recorded offset; every node position is the offset of the first token of the node and the node text starts with it (induction over the reader); a regex match inside a text token lies at token offset + match start (the regex engine itself is trusted).', '0.5, 5 C13'),
- 'C14': ('Lean 4 theorems over all trees: rename/set-string/set-args are splices of exactly that span (both \\begin and \\end), search sees the change; re-parse clause explored', '5 C14'),
- 'C15': ('Lean 4 theorem: any history of edits refines the string-splice reference model (induction over the operation list); tree well-formedness preserved', '5 C15'),
+ 'C13': ('Lean 4 theorems: char_pos_to_line = (line, column) for every string and offset; every token text is the slice of the source at its recorded offset; every node position is the offset of the first token of the node and the node text starts with it (induction over the reader); every text leaf of a parsed tree with a recorded position is the slice of the source there (C13.text_leaf_slice), hence every match search_regex reports stands at the reported offset for ANY matcher function (C13.search_regex_offsets; the regex engine is a parameter, made-up bare arguments at position -1 excluded by a proved counterexample).', '0.5, 5 C13'),
+ 'C14': ('Lean 4 theorems over all trees: rename/set-string/set-args are splices of exactly that span (both \\begin and \\end), search sees the change; re-parse clause PROVED for renaming commands and environments of grammar documents (C14G.rename_*_reparse_of_source: the new text re-parses, both tolerances, to the edited tree of the Edit model up to positions; side conditions sameRole/envRole each shown necessary), explored for .string/.args', '5 C14'),
+ 'C15': ('Lean 4 theorem: any history of edits refines the string-splice reference model (induction over the operation list); tree well-formedness preserved; in-place TexArgs operations inside histories are compared as .args assignments of the list-level result (C18 refinement + C14.setArgs_splice)', '5 C15'),
  'C16': ("Lean 4 theorems: for ALL inputs, when no spacer was dropped the output is the input, hence a fixed point, and a second pass never grows; for every well-formed document of the grammar written with arbitrary spacers between commands and arguments: the serialisation is the text of the squeezed document, which is well-formed and separated (under the property's sizing-prefix side condition), so re-parsing gives the same shape and text (C16G.reparse_fixed_point_of_source). Arbitrary non-grammar strings with dropped spacers: explored.", '0.5, 5 C16'),
  'C17': ('Lean 4 theorems: chunk flattening, prefix-free sizing table => iteration-order independence, parse is a function; agreement of the implementation across input forms, hash seeds, interleavings is translation validation by the check', '5 C17'),
- 'C18': ('Lean 4 refinement: every TexArgs operation with every index refines Python list semantics, invariant preserved, lifted to all histories; coercion and serialisation theorems; negative theorems for the unrepaired code', '5 C18'),
+ 'C18': ('Lean 4 refinement: every TexArgs operation with every index refines Python list semantics, invariant preserved, lifted to all histories; coercion and serialisation theorems; extend by a TexArgs object (own slice, the list itself, another list) included; negative theorems for the unrepaired code', '5 C18'),
  'C19': ('Lean 4 theorems for every string: categorize is index-wise, tokens partition the input up to ignored characters, no empty token, true offsets, tokenizer always makes progress', '5 C19'),
  'C20': ('Lean 4 refinement: every Buffer operation (all arguments) refines list+index, laziness unobservable, lifted to all histories for string- and token-backed buffers; negative theorem for the unrepaired peek', '5 C20'),
 }
